@@ -610,7 +610,14 @@ func checkAlign(r *core.Run, info *types.Info, fd *ast.FuncDecl) {
 				}
 			case *ast.BlockStmt:
 				st = walk(x.List, st)
-			case *ast.SwitchStmt, *ast.ForStmt, *ast.RangeStmt, *ast.TypeSwitchStmt, *ast.SelectStmt, *ast.GoStmt, *ast.DeferStmt, *ast.LabeledStmt, *ast.BranchStmt:
+			case *ast.SwitchStmt:
+				// a switch is the if / else-if chain of its clauses
+				if chain := core.SwitchAsIfChain(x); chain != nil {
+					st = walk([]ast.Stmt{chain}, st)
+				} else {
+					r.Fatal("parseBase62: this switch (fallthrough, or init statement) is not handled by the alignment walker (unrecognised idiom)")
+				}
+			case *ast.ForStmt, *ast.RangeStmt, *ast.TypeSwitchStmt, *ast.SelectStmt, *ast.GoStmt, *ast.DeferStmt, *ast.LabeledStmt, *ast.BranchStmt:
 				r.Fatal("parseBase62: statement form %T is not handled by the alignment walker (unrecognised idiom)", x)
 			}
 		}
